@@ -202,7 +202,7 @@ def compare_builtin(chk: Check, pick):
         time = np.round(np.arange(-6.0, 1.5, 0.25), 10)       # the perturbed free induction decay lives before the pulse
     spectral = np.array([600.0, 620.0, 640.0])
     if t == "spectral":
-        coords = {"spectral": np.round(np.arange(580.0, 680.0, 10.0), 10), "time": np.array([0.0, 1.0, 2.0])}
+        coords = {"spectral": np.round(np.arange(580.0, 680.0, 4.0), 10), "time": np.array([0.0, 1.0, 2.0])}     # 25 x 3 points: degrees of freedom stay positive for 4 shapes + partner (D11)
         gdim = "time"
     else:
         coords = {"time": time, "spectral": spectral}
